@@ -3,6 +3,7 @@
    run_spec can proceed case by case without exposing anonymous fixpoints. *)
 From Coq Require Import ZArith List Bool.
 Require Import NS.theories.F64 NS.theories.StrLib NS.theories.Lang NS.theories.Spec.
+Require NS.theories.NumParse NS.theories.CaseMap.
 Import ListNotations.
 Open Scope Z_scope.
 
@@ -219,11 +220,11 @@ Lemma seval_S n' e c h :
                 | _ => sstuck
                 end
               else if bytes_eqb f n_to_uppercase then
-                if is_ascii str then sret (VStr (ascii_upper str), h1) else ([], SUnsupp)
+                sret (VStr (CaseMap.to_upper str), h1)
               else if bytes_eqb f n_to_lowercase then
-                if is_ascii str then sret (VStr (ascii_lower str), h1) else ([], SUnsupp)
+                sret (VStr (CaseMap.to_lower str), h1)
               else if bytes_eqb f n_trim then sret (VStr (trim str), h1)
-              else if bytes_eqb f n_to_number then ([], SUnsupp)
+              else if bytes_eqb f n_to_number then sret (VNum (NumParse.to_number str), h1)
               else if bytes_eqb f n_find then
                 match args with
                 | a0 :: _ =>
